@@ -37,7 +37,9 @@ pub fn watchdog() {
                 stale += 1;
                 if stale >= 40 {
                     let cur = CURRENT.lock().map(|c| c.clone()).unwrap_or_default();
-                    println!("!hang\t{cur}");
+                    // on stderr: the main thread holds the stdout lock for the whole run (a `println!` here would
+                    // wait for it forever — which is how a hang once went unreported)
+                    eprintln!("!hang\t{cur}");
                     std::process::exit(3);
                 }
             } else {
@@ -1112,6 +1114,29 @@ fn placeholder_edge_texts(ff: &EF<&str>) -> Vec<String> {
         out.push(format!("{}{ph}{}", br.0, br.1));
         out.push(format!("{}{ph}{}{sp}{ph}{}", br.0, c.separator, br.1));
     }
+    // deep nesting (the totality properties bound it by 64 and the input by 512 characters): unclosed and closed
+    // towers of statements, compounds and sets — linear work for a parser that does not re-scan on failure
+    let st = &ff.statement;
+    let cop = st.copula_inheritance;
+    for d in [24usize, 40, 64] {
+        let open = st.brackets.0.repeat(d);
+        let step = format!("{sp}{cop}{sp}B{}", st.brackets.1);
+        let cands = vec![
+            open.clone(),
+            format!("{open}A"),
+            format!("{open}A{}{sp}{cop}{sp}B", step.repeat(d - 1)),
+            format!("{open}A{}", step.repeat(d)),
+            format!("{}A", format!("{}{}{}{sp}", c.brackets.0, c.connecter_conjunction, c.separator).repeat(d)),
+            format!("{}A{}", format!("{}{}{}{sp}", c.brackets.0, c.connecter_conjunction, c.separator).repeat(d), c.brackets.1.repeat(d)),
+            format!("{}A", c.brackets_set_extension.0.repeat(d)),
+            format!("{}A{}", c.brackets_set_intension.0.repeat(d), c.brackets_set_intension.1.repeat(d)),
+        ];
+        for s in cands {
+            if s.chars().count() <= 512 {
+                out.push(s);
+            }
+        }
+    }
     out
 }
 
@@ -1450,6 +1475,24 @@ fn pairs<W: Write>(r: &mut Rng, cfg: &TermCfg, n: usize, o: &mut Out<W>) {
         if let (Ok(Narsese::Term(p1)), Ok(Narsese::Term(p2))) = (ff.parse::<Narsese>(&text), ff.parse::<Narsese>(&text)) {
             pair_check(o, &p1, &p2, "two-parses");
             pair_check(o, &p1, &a, "parse-vs-built");
+        }
+        // images that are WRITTEN the same but stored differently: a component list with two or more placeholders can
+        // be split at any of them; different index / stored components = different terms (C06), and whatever `==`
+        // says the hashes must follow (C07). Also nested inside a set, where the comparison goes through the hash.
+        if r.chance(1, 4) {
+            let len = 3 + r.below(3);
+            let mut written: Vec<Term> = (0..len).map(|_| gen::term(r, cfg, 0)).collect();
+            let (p1, p2) = (r.below(len), r.below(len));
+            written[p1] = Term::Placeholder;
+            written[p2] = Term::Placeholder;
+            let split = |i: usize| -> Vec<Term> { written.iter().enumerate().filter(|(k, _)| *k != i).map(|(_, t)| t.clone()).collect() };
+            let ext = r.chance(1, 2);
+            let mk = |i: usize| if ext { Term::ImageExtension(i, split(i)) } else { Term::ImageIntension(i, split(i)) };
+            let (ia, ib) = (mk(p1), mk(p2));
+            pair_check(o, &ia, &ib, "same-written-images");
+            pair_check(o, &Term::new_set_extension(vec![ia.clone(), a.clone()]), &Term::new_set_extension(vec![a.clone(), ib.clone()]), "same-written-images-in-set");
+            let other = if ext { Term::ImageIntension(p1, split(p1)) } else { Term::ImageExtension(p1, split(p1)) };
+            pair_check(o, &ia, &other, "ext-vs-int-image");
         }
         // transitivity on a triple of rebuilt copies
         let b2 = rebuild(r, &b);
